@@ -828,6 +828,10 @@ class SyncObj(object):
             if self.__selfCodeVersion < ver:
                 raise SyncObjExceptionWrongVer(ver)
             oldVer = self.__enabledCodeVersion
+            if ver < oldVer:
+                # Accepted by a node that had not applied a newer switch yet: the enabled
+                # version never goes down (every node takes the same decision here).
+                return
             self.__enabledCodeVersion = ver
             callback = self.__conf.onCodeVersionChanged
             self.__onSetCodeVersion(ver)
